@@ -56,6 +56,7 @@ type Request struct {
 	Pre      map[string]any `json:"-"`             // stored object before the request (nil = absent)
 	Post     map[string]any `json:"-"`             // stored object after the request (nil = absent)
 	Fault    string         `json:"fault,omitempty"`
+	Sent     map[string]any `json:"-"` // the object as sent by the caller (status updates)
 	LastRead map[string]any `json:"-"` // what the most recent read of this key in the current pass returned
 }
 
@@ -290,7 +291,7 @@ func (s *Store) commit(k storeKey, old, new map[string]any) map[string]any {
 		if dt := ou.GetDeletionTimestamp(); dt != nil {
 			nu.SetDeletionTimestamp(dt)
 		}
-		if reflect.DeepEqual(normalize(old), normalize(nu.Object)) {
+		if reflect.DeepEqual(normalize(stripVolatile(k, old)), normalize(stripVolatile(k, nu.Object))) {
 			return old
 		}
 		if !reflect.DeepEqual(specOf(old), specOf(nu.Object)) {
@@ -348,6 +349,27 @@ func prune(v any) any {
 	default:
 		return v
 	}
+}
+
+// stripVolatile: for package-operator.run kinds, condition messages and transition times do not count as
+// a change (the model does not carry them); documented deviation from a real API server.
+func stripVolatile(k storeKey, m map[string]any) map[string]any {
+	if !hasStatusSubresource(k) {
+		return m
+	}
+	c := deepCopyMap(m)
+	conds, ok, _ := unstructured.NestedSlice(c, "status", "conditions")
+	if !ok {
+		return c
+	}
+	for _, x := range conds {
+		if cm, ok := x.(map[string]any); ok {
+			delete(cm, "message")
+			delete(cm, "lastTransitionTime")
+		}
+	}
+	_ = unstructured.SetNestedSlice(c, conds, "status", "conditions")
+	return c
 }
 
 func specOf(m map[string]any) any {
@@ -784,6 +806,7 @@ func (w *statusWriter) Update(_ context.Context, obj client.Object, _ ...client.
 	}
 	k := s.keyOf(u)
 	r, err := s.begin("status-update", k, false)
+	r.Sent = deepCopyMap(u.Object)
 	if err != nil {
 		return s.end(r, err)
 	}
